@@ -9,6 +9,10 @@ mode 'scripted': nlopt.opt and scipy.optimize.fmin_bfgs / fmin_l_bfgs_b / fmin /
 mode 'real'    : real nlopt / scipy optimisers, real likelihoods, cheap closed-form Spectrum-valued models; every model
                  evaluation is logged; the returned point and the start are re-evaluated.
 mode 'perturb' : dadi.Misc.perturb_params with numpy.random.uniform replaced by given draws.
+mode 'project' : dadi.Inference._project_params_down / _project_params_up and their two compositions on given vectors.
+
+In every mode fixed_params / lower_bound / upper_bound are handed over with the Python types the case names (`*_kinds`:
+int 0, 0.0, -0.0, numpy.float64, numpy.int64, bool; `*_container`: list, tuple, numpy array).
 """
 import sys, json, warnings, inspect, math
 warnings.filterwarnings('ignore')
@@ -170,6 +174,56 @@ def quad(spec, p):
 def grid_slices(ranges):
     return tuple(slice(a, b, c) for a, b, c in ranges)
 
+# ------------------------------------------------------------------------------------------------
+# the caller-visible arguments with the Python types the case asks for: a value fixed at zero may arrive as 0, 0.0, -0.0,
+# numpy.float64(0), numpy.int64(0) or False; fixed_params / bounds as list, tuple or numpy array
+
+def typed(v, kind):
+    if v is None:
+        return None
+    if kind in (None, 'float'):
+        return float(v)
+    if kind == 'int':
+        assert float(v) == int(v)
+        return int(v)
+    if kind == 'negzero':
+        assert float(v) == 0.0
+        return -0.0
+    if kind == 'npfloat':
+        return np.float64(v)
+    if kind == 'npint':
+        assert float(v) == int(v)
+        return np.int64(int(v))
+    if kind == 'bool':
+        assert float(v) in (0.0, 1.0)
+        return bool(v)
+    raise ValueError('unknown kind %r' % (kind,))
+
+def typed_seq(vals, kinds, how, force_object=False):
+    if vals is None:
+        return None
+    kinds = kinds or [None] * len(vals)
+    out = [typed(v, k) for v, k in zip(vals, kinds)]
+    if how == 'tuple':
+        return tuple(out)
+    if how == 'array':
+        if force_object or any(v is None for v in out):
+            a = np.empty(len(out), dtype=object)
+            for i, v in enumerate(out):
+                a[i] = v
+            return a
+        return np.array(out, dtype=float)
+    return out
+
+def typed_args(c):
+    return {'fixed': typed_seq(c.get('fixed'), c.get('fixed_kinds'), c.get('fixed_container'), force_object=True),
+            'lower': typed_seq(c.get('lower'), c.get('lower_kinds'), c.get('bound_container')),
+            'upper': typed_seq(c.get('upper'), c.get('upper_kinds'), c.get('bound_container')),
+            'p0': None if c.get('p0') is None else list(c['p0'])}
+
+def plain(seq):
+    return None if seq is None else [None if v is None else float(v) for v in seq]
+
 def call_wrapper(c, data, model, full_output=True):
     fn = c['fn']
     kw = dict(multinom=c['multinom'], fixed_params=c['fixed'])
@@ -194,8 +248,8 @@ def call_wrapper(c, data, model, full_output=True):
     return (out[0], out[1]) if full_output else (out, None)
 
 def copy_in(c):
-    """fresh copies of the caller-visible lists, to see whether the wrapper modifies them"""
-    return {k: (list(c[k]) if isinstance(c.get(k), list) else c.get(k)) for k in ('p0', 'lower', 'upper', 'fixed')}
+    """fresh copies of the caller-visible sequences (with the requested Python types), to see whether the wrapper modifies them"""
+    return typed_args(c)
 
 def run_scripted(cases):
     out = []
@@ -272,7 +326,7 @@ def run_real(cases):
             rec['x'] = jl(x); rec['f'] = None if f is None else jf(f)
             rec['ll_at_x'] = jf(lik(np.atleast_1d(x)))
             for k in ('p0', 'lower', 'upper', 'fixed'):
-                if isinstance(c.get(k), list) and [None if v is None else float(v) for v in cc[k]] != [None if v is None else float(v) for v in c[k]]:
+                if isinstance(c.get(k), list) and plain(cc[k]) != plain(c[k]):
                     rec.setdefault('mutated', []).append(k)
         except Exception as e:
             rec['error'] = type(e).__name__ + ': ' + str(e)[:300]
@@ -300,8 +354,8 @@ def run_perturb(cases):
             return np.array(_us, dtype=float)
         np.random.uniform = fake_uniform
         try:
-            lo = None if c['lower'] is None else list(c['lower'])
-            hi = None if c['upper'] is None else list(c['upper'])
+            lo = typed_seq(c['lower'], c.get('lower_kinds'), c.get('bound_container'))
+            hi = typed_seq(c['upper'], c.get('upper_kinds'), c.get('bound_container'))
             kw = {}
             if lo is not None: kw['lower_bound'] = lo
             if hi is not None: kw['upper_bound'] = hi
@@ -314,6 +368,34 @@ def run_perturb(cases):
         out.append(rec)
     return out
 
+# ------------------------------------------------------------------------------------------------
+# _project_params_down / _project_params_up on their own
+
+def run_project(cases):
+    out = []
+    def opt_list(a):
+        return [None if v is None else jf(v) for v in list(a)]
+    for c in cases:
+        rec = {'id': c['id']}
+        fixed = typed_seq(c.get('fixed'), c.get('fixed_kinds'), c.get('fixed_container'), force_object=True)
+        pin = typed_seq(c['pin'], None, c.get('pin_container'))
+        free = c['free'][0] if c.get('free_scalar') else typed_seq(c['free'], None, c.get('pin_container'))
+        def attempt(name, thunk, conv):
+            try:
+                rec[name] = conv(thunk())
+            except Exception as e:
+                rec[name] = None
+                rec.setdefault('errors', {})[name] = type(e).__name__ + ': ' + str(e)[:200]
+        attempt('down', lambda: Inf._project_params_down(pin, fixed), opt_list)
+        attempt('up', lambda: Inf._project_params_up(free, fixed), lambda a: jl(a) if not np.isscalar(a) else [jf(a)])
+        attempt('down_up', lambda: Inf._project_params_down(Inf._project_params_up(free, fixed), fixed), lambda a: jl(a) if not np.isscalar(a) else [jf(a)])
+        if all(v is not None for v in c['pin']):
+            attempt('up_down', lambda: Inf._project_params_up(Inf._project_params_down(pin, fixed), fixed), jl)
+        else:
+            rec['up_down'] = None
+        out.append(rec)
+    return out
+
 def main():
     payload = json.load(sys.stdin)
     mode = payload['mode']
@@ -323,6 +405,8 @@ def main():
         res = run_real(payload['cases'])
     elif mode == 'perturb':
         res = run_perturb(payload['cases'])
+    elif mode == 'project':
+        res = run_project(payload['cases'])
     else:
         raise SystemExit('unknown mode')
     print(json.dumps(res))
